@@ -52,6 +52,14 @@ ASSERTIONS = ["stopwords:func", "stopwords:literal", "stopwords:tokenizer-uses-n
               "c03:normalizeAndTokenize", "c03:min-token-len", "c03:UpdateDatabase", "c03:update-rebuilds-both", "c03:LoadDatabase",
               "c03:LoadDatabaseWithPersonal", "c03:load-builds-both", "c03:merge-builds-both", "c03:merge-order"]
 
+# ---- the BM25F formulas of the model are the source's (Props/C03b.lean over the regenerated Gen/Bm25F.lean) ----
+THEOREMS += ["Wtf.C03." + t for t in ("fieldBM25_regenerated", "termBM25F_regenerated")]
+ASSERTIONS += ["bm25f:" + s for s in ("fieldBM25", "fieldBM25:param-types", "fieldBM25:params", "fieldBM25:body", "termBM25F", "termBM25F:body",
+                                      "bm25IDF", "bm25IDF:shape", "bm25IDF:arg")]
+PROP["level_text"] += (" Props/C03b.lean: fieldBM25, termBM25F and the argument of math.Log in bm25IDF are TRANSLATED statement by statement into Lean "
+                       "definitions on every run (Gen/Bm25F.lean); the hand-written model functions every search theorem and the driver use are shown equal to "
+                       "them by unfolding (`fieldBM25_regenerated`, `termBM25F_regenerated`); the regenerated logarithm argument is treated in Props/C01d.lean.")
+
 TOK_ALPHABET = 13
 TOK_CHUNK = 120
 
@@ -83,7 +91,7 @@ def nt_ship(tags, ops, impl):
 
 def run(ctx):
     ctx.stage_xlate(required_assertions=ASSERTIONS)
-    ctx.stage_prove(THEOREMS)
+    ctx.stage_prove(THEOREMS, extra_targets=["WtfModel.Props.C03b"])
     if not ctx.stage_build():
         return
     quick = ctx.tier == "quick"
